@@ -441,6 +441,7 @@ def call_design(D, ctx, params, motifs, trace):
 	spec = params["model"]
 	alphabet = ctx.alphabet
 	X = gen.ohe([params["seq"]], alphabet, DT[params.get("xdtype", "int8")])
+	X, xbase = gen.relayout(X, gen.layout_of(params))
 	y = torch.from_numpy(ctx.y_int.astype(numpy.float64) * 2.0 ** (
 		-ctx.shift))
 	kw = {"device": "cpu"}
@@ -505,7 +506,7 @@ def call_design(D, ctx, params, motifs, trace):
 
 	D.substitute = wrapped
 	try:
-		mon = gen.Immutable(X=X, y=y)
+		mon = gen.Immutable(X=X, Xbase=xbase, y=y)
 		st, out = gen.call(D.greedy_substitution, model, X, list(motifs), y,
 			**kw)
 	finally:
